@@ -44,7 +44,9 @@ RULE = ("complete products: Policy.get precedence (presence of requester / regis
         "points and ~190 random cases through Server.create_authn_response.  non-trivial = distinct (entry point, "
         "best_effort / fail_on_missing argument, applicable section kind, restriction kind, entity-category mode, "
         "declaration shape, outcome) classes other than 'nothing configured, everything released'")
-TRUSTED = ["Python re (regex matching enters as data: bool(re.compile(r).match(v)))",
+TRUSTED = ["source-to-Gallina translator harness/py2coq.py + coq/theories/Base/Py.v (Policy.get is re-translated from the source text "
+           "on every run; c10_source_policy_get proves it equal to the model's section precedence)",
+           "Python re (regex matching enters as data: bool(re.compile(r).match(v)))",
            "attribute maps (get_local_name result enters as data; C17 covers the maps)",
            "abstraction functions and SP-metadata / policy-config renderers in harness/c10.py",
            "xml.etree as independent reader of the AttributeStatement",
@@ -172,8 +174,16 @@ def regenerate_tables(ctx):
     for x, ident in abbr().items():
         ab.append("Definition %s := %s." % (ident, common.cq_str(x)))
     _write_if_changed(os.path.join(common.COQDIR, "gen", "C10Abbrev.v"), "\n".join(ab) + "\n")
-    return {"obligations": len(tabs), "discharged": len(tabs), "modules": [t[0] for t in tabs], "entries": n,
-            "file": "coq/gen/C10Tables.v"}
+    # translator: Policy.get as it reads NOW -> coq/gen/C10Src.v (C10/Source.v proves it equal to the model's precedence)
+    from harness import py2coq
+    src = py2coq.regenerate(os.path.join(common.COQDIR, "gen", "C10Src.v"), [
+        (os.path.join(env.SRC, "saml2", "assertion.py"), "Policy.get",
+         {"name": "src_policy_get", "params": ["self", "attribute", "sp_entity_id", "default"],
+          "extra_params": [("registration_info", "pyval -> pyval")],
+          "calls": {"self.metadata_store.registration_info": lambda a: "(registration_info %s)" % a[0]}})])
+    return {"obligations": len(tabs) + src["obligations"], "discharged": len(tabs) + src["discharged"],
+            "modules": [t[0] for t in tabs], "entries": n, "file": "coq/gen/C10Tables.v", "source": src,
+            "untranslatable": src["untranslatable"]}
 
 
 def _write_if_changed(path, txt):
